@@ -12,8 +12,10 @@ the state being processed yields its keys — is recorded by the cfg(grmtools_ve
 (`lrtable::verif_take_pager_trace`).  For every generated grammar the extracted mirror REPLAYS that trace (FIRST/nullable
 = the proved-exact first_ref) and its graph must be IDENTICAL to the implementation's StateGraph: same number of states,
 same numbering, the same core and closed item sets (as sets of (production, dot, lookahead set)) and the same edges;
-the mirror must return Done (no Panic, enough fuel = |trace| + 2) and the trace must name each processed state as the
-mirror chooses it.
+the mirror must return Done (no Panic, enough fuel = |trace| + 2).  The automaton INDUCED by the mirror's graph
+(theories/C02/InducedModel.v: the table read off the closed states and edges) must pass validS/validE always and, when the
+implementation reports no conflict, validC/single_candidate too (C02_induced_valid*, C02_pager_mirror_validated), and its
+action/goto table must then equal the implementation's StateTable cell by cell.
 """
 from vlib import core
 
@@ -52,7 +54,8 @@ def run_part(ctx, results):
     impl = core.run_lines([exe], lines)
     good = [(r, out) for r, out in zip(oks, impl) if out.startswith("G ")]
     model = core.run_lines([mexe, "loop"], [o for _, o in good], timeout=2400) if good else []
-    tot = {"grammars": 0, "states": 0, "iterations": 0, "reprocessed_grammars": 0, "gc_grammars": 0}
+    tot = {"grammars": 0, "states": 0, "iterations": 0, "reprocessed_grammars": 0, "gc_grammars": 0,
+           "conflict_free_grammars": 0, "tables_equal": 0}
     for r, out in zip(oks, impl):
         if not out.startswith("G "):
             ctx.oblige(False)
@@ -82,6 +85,25 @@ def run_part(ctx, results):
                         bad.append({"what": "edges of state %d differ" % st, "implementation": ea, "mirror": eb})
                     if len(bad) >= 3:
                         break
+            # the automaton induced by the mirror's graph (InducedModel.v): validators and table
+            kv = dict(x.split("=") for x in mo.split(" # ")[0].split()[2:] if "=" in x)
+            noconf = " # X none" in out
+            if kv.get("S") != "1" or kv.get("E") != "1":
+                bad.append({"what": "validS/validE reject the automaton induced by the mirror's graph (S=%s E=%s) — excluded by "
+                                    "C02_induced_validS / C02_induced_validE" % (kv.get("S"), kv.get("E"))})
+            if noconf:
+                tot["conflict_free_grammars"] += 1
+                if kv.get("C") != "1" or kv.get("single") != "1":
+                    bad.append({"what": "no conflict reported but validC/single_candidate reject the induced automaton (C=%s single=%s)"
+                                        % (kv.get("C"), kv.get("single"))})
+                ta = sorted(x for x in out.split(" # ") if x.startswith("A ") or x.startswith("T "))
+                tb = sorted(x for x in mo.split(" # ") if x.startswith("A ") or x.startswith("T "))
+                if ta != tb:
+                    diff = sorted(set(ta) ^ set(tb))[:8]
+                    bad.append({"what": "the implementation's StateTable differs from the table induced by the graph (shift along token "
+                                        "edges, reduce by the complete item carrying the lookahead, goto = rule edges)", "cells": diff})
+                else:
+                    tot["tables_equal"] += 1
         tot["grammars"] += 1
         tot["states"] += gi[0] or 0
         tot["iterations"] += len(trace)
